@@ -2,10 +2,11 @@
 # usage: lib/trymutant.sh <patch.diff> <property id>...   (applies the patch to /repo, runs the quick checks, reverts)
 set -u
 patch="$1"; shift
-cd /repo || exit 2
+R="${REPODIR:-/repo}"; export VERIF_REPO="$R"
+cd "$R" || exit 2
 if [ -n "$(git status --porcelain)" ]; then echo "/repo not clean"; exit 2; fi
 git apply "$patch" || { echo "patch does not apply"; exit 2; }
-trap 'git -C /repo checkout -- . ; git -C /repo status --porcelain' EXIT
+trap 'git -C "$R" checkout -- . ; git -C "$R" status --porcelain' EXIT
 cd /verif
 for id in "$@"; do
   cp evidence/$id.json /tmp/evbak-$id.json 2>/dev/null
